@@ -40,6 +40,13 @@ def gen_inputs(ck):
         add("random-syntax-bytes", [b"interface a.b\n" + bytes(rng.choice(b" \t\r\n#():,->?[]_.aZ09x\x00\xff") for _ in range(n))])
     for v in valid[:12 if thorough else 4]:
         add("byte-mutation", G.byte_mutations(v, rng, 3000 if thorough else 300))
+    small = b"interface a.b\ntype T (a: ?[]int, b: [string](x, y))\n# d\nmethod M(a: T) -> (b: bool)\nerror E (c: string)\n"
+    add("every-byte", G.every_byte_everywhere(small, None if thorough else range(0, len(small) + 1, 2)))
+    # nesting that alternates constructors (a per-level re-parse would be exponential)
+    for n in (10, 20, 30, 60, 200):
+        head = b"interface a.b\nmethod A(x: "
+        add("deep-alternating", [head + b"?[]" * n + b"int) -> ()", head + b"?[string]" * n + b"int) -> ()", head + b"?(a:" * n + b"int" + b")" * n + b") -> ()",
+                                 head + b"[]?" * n + b"int) -> ()"])
     deep = [200, 4000] + ([16000, 30000] if thorough else [])
     for n in deep:
         head = b"interface a.b\nmethod A(x: "
@@ -90,7 +97,8 @@ def main(pid, argv):
         if ic not in ("OK", "ERR"):
             n_fail += 1
             if True:
-                small = C.shrink(binp, x, lambda d, r: C.cls(r) == ic) if n_fail <= 3 else x
+                # only panics are minimised: re-running a hanging input hundreds of times would take hours
+                small = C.shrink(binp, x, lambda d, r: C.cls(r) == ic) if (n_fail <= 3 and ic == "PANIC") else x
                 ck.fail("idl-not-total", V.hexs(small), "idl.New does not return a tree or an error: " + il[:200],
                         impl=il[:300], model=ml[:100], extra=dict(original=V.hexs(x)[:400], generator=k, text=repr(small[:200])))
         elif mc not in ("OK", "ERR"):
